@@ -17,6 +17,8 @@ import copy
 import random
 from typing import Any, Dict, List
 
+from checks import _c16_gen as _gen
+
 EQUAL, DIFFER, NONE, NOCLAIM = "equal", "differ", "none", None
 NAMES = ["a", "ab", "gen", "gen-x", "w", "p", "x-y", "A", "prod", "t"]
 EXES = ["echo", "cat", "ls", "wc", "sh"]
@@ -364,3 +366,102 @@ def has_suffix_spelling_tie(case: Dict[str, Any], judged: str) -> bool:
 def _comp(case, judged):
     st, name = judged.split(".", 1)
     return next(c for c in case["doc"]["components"] if c["name"] == name and "stage%d" % c.get("stage", 0) == st)
+
+
+# ----------------------------------------------------------------------------- family B
+#
+# "consume files with equal contents": contents are BYTES.  E and E' differ in the bytes of ONE referenced file, changed
+# minimally in a way a text-mode / decoding / normalising reader would not see (checks/_c16_gen.py BYTE_KINDS), the file
+# being consumed through each route the check uses.  Demanded (statement only):
+#   bytes of the referenced file changed                      -> strong must differ; fuzzy must be EQUAL when the file is
+#                                                                produced by another component ("ignores the contents of
+#                                                                files produced by other components"), no claim otherwise
+#   the same bytes under another file name (reference updated) -> strong must be equal (equal arguments after each
+#                                                                reference is replaced by the hash of its content, files
+#                                                                with equal contents through equal methods)
+#   siblings of ONE experiment that differ only in which file they name: other bytes -> differ, same bytes -> equal
+# File contents are byte-strings (code points 0..255), written with .encode('latin-1').
+
+B_ROUTES = ["data-ref-on-cmdline", "data-copy-off-cmdline", "data-link-off-cmdline", "external-ref-on-cmdline",
+            "external-copy-off-cmdline", "producer-file-ref-on-cmdline", "producer-file-copy-off-cmdline",
+            "producer-file-link-off-cmdline", "producer-file-output", "producer-stdout-output"]
+B_FILES = ["table.csv", "in.dat", "blob.bin", "notes.txt", "cfg"]
+
+
+def _b_ref(sym: Dict[str, Any], fn: str) -> str:
+    route = sym["route"]
+    method = "output" if route.endswith("output") else route.split("-")[-3] if route.endswith("cmdline") else "ref"
+    if route.startswith("data-"):
+        return "data/%s:%s" % (fn, method)
+    if route.startswith("external-"):
+        return "@EXT@/%s:%s" % (fn, method)
+    if route == "producer-stdout-output":
+        return "stage0.%s:output" % sym["producer"]
+    return "stage0.%s/%s:%s" % (sym["producer"], fn, method)
+
+
+def _b_component(sym: Dict[str, Any], name: str, fn: str) -> Dict[str, Any]:
+    ref = _b_ref(sym, fn)
+    on_cmdline = sym["route"].endswith("on-cmdline") or sym["route"].endswith("output")
+    refs = [ref] + list(sym["more_refs"])
+    toks = [sym["lits"][0]] + ([ref] if on_cmdline else []) + list(sym["more_refs"]) + [sym["lits"][1]]
+    return {"name": name, "stage": 1, "references": refs,
+            "command": {"executable": sym["exe"], "arguments": " ".join(toks)}}
+
+
+def _b_build(sym: Dict[str, Any]) -> Dict[str, Any]:
+    route = sym["route"]
+    comps = [{"name": sym["producer"], "stage": 0, "command": {"executable": "echo", "arguments": "made"}},
+             _b_component(sym, sym["t"], sym["fn"])]
+    data = {"data/aux.txt": "aux\n"}
+    external: Dict[str, str] = {}
+    outputs = {"stage0.%s" % sym["producer"]: {"out.txt": "O", "out.stdout": "S"}}
+    store = data if route.startswith("data-") else external if route.startswith("external-") else None
+    if store is not None:
+        key = (lambda f: "data/" + f) if store is data else (lambda f: f)
+        store[key(sym["fn"])] = sym["content"]
+        # siblings: the same definition naming a file with OTHER bytes / a file with the SAME bytes
+        store[key(sym["fn_diff"])] = sym["content_diff"]
+        store[key(sym["fn_same"])] = sym["content"]
+        comps.append(_b_component(sym, sym["t_diff"], sym["fn_diff"]))
+        comps.append(_b_component(sym, sym["t_same"], sym["fn_same"]))
+    elif route == "producer-stdout-output":
+        outputs["stage0.%s" % sym["producer"]]["out.stdout"] = sym["content"]
+    else:
+        outputs["stage0.%s" % sym["producer"]][sym["fn"]] = sym["content"]
+    for c in comps[1:]:
+        outputs["stage1.%s" % c["name"]] = {"out.txt": "OT", "out.stdout": "ST"}
+    return _mat({"components": comps}, data=data, external=external, outputs=outputs, where=sym["where"])
+
+
+def gen_bytes(r: random.Random, index: int) -> Dict[str, Any]:
+    kinds = _gen.BYTE_KINDS
+    kind = kinds[index % len(kinds)]
+    route = B_ROUTES[(index // len(kinds) * 3 + index) % len(B_ROUTES)] if r.random() < 0.8 else r.choice(B_ROUTES)
+    c1 = _gen.byte_base(kind, r)
+    c2 = _gen.byte_edit(c1, kind, r)
+    assert c2 is not None and c2 != c1, kind
+    names = r.sample(NAMES, 4)
+    fns = r.sample(B_FILES, 4)
+    sym = {"route": route, "kind": kind, "content": c1, "content_diff": c2, "fn": fns[0], "fn_diff": fns[1],
+           "fn_same": fns[2], "producer": names[0], "t": names[1], "t_diff": names[2], "t_same": names[3],
+           "exe": r.choice(EXES), "lits": [r.choice(LITS), r.choice(LITS)],
+           "more_refs": ["data/aux.txt:ref"] if r.random() < 0.4 else [], "where": "A"}
+    E = _b_build(sym)
+    judged = "stage1.%s" % sym["t"]
+    produced = route.startswith("producer-")
+    detail = {"kind": kind, "route": route, "file": _b_ref(sym, sym["fn"]), "bytes_E": len(c1), "bytes_E_prime": len(c2)}
+    variants = [{"id": "B1-bytes-of-a-referenced-file-changed", "case": _b_build(dict(sym, content=c2, where="B")),
+                 "strong": DIFFER, "fuzzy": EQUAL if produced else NOCLAIM, "detail": detail}]
+    if route != "producer-stdout-output":
+        variants.append({"id": "B2-same-bytes-under-another-file-name", "case": _b_build(dict(sym, fn=fns[3], where="B")),
+                         "strong": EQUAL, "fuzzy": NOCLAIM, "detail": dict(detail, renamed_to=fns[3])})
+    if not produced:
+        variants.append({"id": "B5-sibling-names-a-file-with-other-bytes", "case": None, "within": True,
+                         "judged_prime": "stage1.%s" % sym["t_diff"], "strong": DIFFER, "fuzzy": NOCLAIM,
+                         "detail": dict(detail, sibling_file=sym["fn_diff"])})
+        variants.append({"id": "B6-sibling-names-a-file-with-the-same-bytes", "case": None, "within": True,
+                         "judged_prime": "stage1.%s" % sym["t_same"], "strong": EQUAL, "fuzzy": NOCLAIM,
+                         "detail": dict(detail, sibling_file=sym["fn_same"])})
+    return {"fam": "B", "index": index, "E": E, "judged": judged, "variants": variants,
+            "klass": "B:%s:%s:more%d" % (kind, route, len(sym["more_refs"]))}
